@@ -312,11 +312,12 @@ type walker struct {
 }
 
 type opScope struct {
-	root     string
-	rootFn   *ssa.Function
-	sites    map[string]map[int]Mode // lock type name -> critical-section sites
-	at1Seen  map[string]bool
-	visiting map[*fnCtx]int
+	writeSites map[string]map[int]string // instance path -> writing critical sections -> position
+	root       string
+	rootFn     *ssa.Function
+	sites      map[string]map[int]Mode // lock type name -> critical-section sites
+	at1Seen    map[string]bool
+	visiting   map[*fnCtx]int
 }
 
 func (w *walker) ctlOf(fc *fnCtx) *ctlInfo {
@@ -339,8 +340,41 @@ func (w *walker) walkRoot(name string, fc *fnCtx, path []string) {
 		return
 	}
 	w.rootDone[fc] = true
-	sc := &opScope{root: name, rootFn: fc.fn, sites: map[string]map[int]Mode{}, at1Seen: map[string]bool{}, visiting: map[*fnCtx]int{}}
+	sc := &opScope{root: name, rootFn: fc.fn, sites: map[string]map[int]Mode{}, at1Seen: map[string]bool{}, visiting: map[*fnCtx]int{}, writeSites: map[string]map[int]string{}}
 	w.walk(sc, fc, AV{}, path, false, nil)
+	// AT2: one state-changing critical section per operation and instance. Two
+	// writing sections on the receiver expose an intermediate state to other
+	// goroutines even when nothing flows between them. Only instances handed in as
+	// parameters count (sub-objects reached through slots are information), and a
+	// single acquisition site executed repeatedly (a loop over elements) is one
+	// multi-element composition, not a violation.
+	var insts []string
+	for inst := range sc.writeSites {
+		insts = append(insts, inst)
+	}
+	sort.Strings(insts)
+	for _, inst := range insts {
+		ws := sc.writeSites[inst]
+		if len(ws) < 2 || isFresh(inst) {
+			continue
+		}
+		lt := w.lockTypeName(inst)
+		var where []string
+		for _, p := range ws {
+			where = append(where, p)
+		}
+		sort.Strings(where)
+		acc := accessOf(inst)
+		direct := !strings.Contains(strings.TrimSuffix(acc, ".cache"), ".")
+		if !direct {
+			w.res.Info = append(w.res.Info, fmt.Sprintf("AT2 %s: %d writing critical sections on the sub-object %s (%s): concurrent calls interleave their effects on it", name, len(ws), lt, strings.Join(where, ", ")))
+			continue
+		}
+		w.res.Obligations = append(w.res.Obligations, Obligation{Rule: "AT2", OK: false, LockType: lt,
+			Sample: map[string]any{"rule": "AT2", "operation": name, "lock": lt, "writing_sections": len(ws)}})
+		w.res.Findings = append(w.res.Findings, Finding{Rule: "AT2", Func: name, Object: "sections " + lt, LockType: lt, Pos: where[len(where)-1], Path: path,
+			Reason: fmt.Sprintf("the operation changes the instance in %d separate critical sections (%s): other goroutines can observe the intermediate state", len(ws), strings.Join(where, ", "))})
+	}
 	// per-operation AT1 obligations and region counts
 	regs := map[string]int{}
 	for lt, s := range sc.sites {
@@ -391,6 +425,16 @@ func (w *walker) walk(sc *opScope, fc *fnCtx, ctlAcc AV, path []string, dup bool
 		}
 		return acc
 	}
+	for _, a := range fc.accesses {
+		if a.write && a.exempt == "" && a.held == W && a.site != 0 {
+			if sc.writeSites[a.inst] == nil {
+				sc.writeSites[a.inst] = map[int]string{}
+			}
+			if ia := e.siteInstr[a.site]; ia != nil {
+				sc.writeSites[a.inst][a.site] = e.P.InstrPos(ia)
+			}
+		}
+	}
 	if !dup {
 		for _, d := range fc.diags {
 			pos := "-"
@@ -415,7 +459,7 @@ func (w *walker) walk(sc *opScope, fc *fnCtx, ctlAcc AV, path []string, dup bool
 		for _, k := range keys {
 			a := fc.accesses[k]
 			lt := w.lockTypeName(a.inst)
-			ok := a.exempt != "" || a.held >= a.need
+			ok := a.exempt != "" || a.held >= a.need || a.atomic // atomic accesses are race-free; AT3 judges them
 			verb := "R"
 			if a.write {
 				verb = "W"
